@@ -736,8 +736,25 @@ func gen(c *harness.C) []harness.Case {
 	case "C02", "C03":
 		c.Note("rule", "explicit-state DFS over real Scheme.HandleMessage: honest deliveries in any order, unbounded; Byzantine injections (payloads x/y, forged acknowledgements by participants/outsiders) bounded by k per history; dedup on canonical dump; distinct_nontrivial = distinct terminal hand-over sets with at least one hand-over")
 		var bs []byzcfg
+		bs = []byzcfg{
+			{name: "N3", honest: []uint16{1, 2}, byz: []uint16{3}, outsider: 9, rounds: []uint8{1}, honestBc: true, budget: 4},
+			{name: "N4", honest: []uint16{1, 2, 3}, byz: []uint16{4}, outsider: 9, rounds: []uint8{1}, budget: 4},
+			{name: "N4b2", honest: []uint16{1, 2}, byz: []uint16{3, 4}, rounds: []uint8{1}, budget: 4},
+			{name: "N3-perm-sign", sign: true, honest: []uint16{1, 2}, byz: []uint16{3}, outsider: 9, rounds: []uint8{1}, honestBc: true, budget: 3, perm: true},
+			{name: "N3-perm", honest: []uint16{1, 2}, byz: []uint16{3}, rounds: []uint8{1}, honestBc: true, budget: 3, perm: true},
+			{name: "N3-lenient-p2p", honest: []uint16{1, 2}, byz: []uint16{3}, rounds: []uint8{1}, budget: 2, lenient: "p2p"},
+			{name: "N3-lenient-bcast", honest: []uint16{1, 2}, byz: []uint16{3}, rounds: []uint8{1}, budget: 3, lenient: "bcast"},
+			{name: "N3-prefix-collision", honest: []uint16{1, 2}, byz: []uint16{3}, rounds: []uint8{1}, budget: 4, collide: "prefix8"},
+			{name: "N3-suffix-collision", honest: []uint16{1, 2}, byz: []uint16{3}, rounds: []uint8{1}, budget: 4, collide: "suffix8"},
+			{name: "N4b2-alias-scripted", honest: []uint16{2, 3}, byz: []uint16{1, 257}, rounds: []uint8{1}, budget: 1, script: "alias"},
+			{name: "N3-round1-honest-scripted", honest: []uint16{1, 2}, byz: []uint16{3}, rounds: []uint8{1, 2}, budget: 4, script: "round1-honest"},
+			{name: "N3-cross-round-scripted", honest: []uint16{1, 2}, byz: []uint16{3}, rounds: []uint8{1, 2}, budget: 1, script: "cross-round"},
+			{name: "N4-cross-round-scripted", honest: []uint16{1, 2, 3}, byz: []uint16{4}, rounds: []uint8{1, 2}, budget: 0, script: "cross-round"},
+			{name: "N3t2", honest: []uint16{1, 2}, byz: []uint16{3}, rounds: []uint8{1}, budget: 3, t: 2},
+			{name: "N4t2", honest: []uint16{1, 2, 3}, byz: []uint16{4}, rounds: []uint8{1}, budget: 3, t: 2},
+		}
 		if c.Thorough() {
-			bs = []byzcfg{
+			deeper := []byzcfg{
 				{name: "N3", honest: []uint16{1, 2}, byz: []uint16{3}, outsider: 9, unknown: 77, rounds: []uint8{1, 2}, junk: true, aboutSelf: true, honestBc: true, budget: 4},
 				{name: "N4", honest: []uint16{1, 2, 3}, byz: []uint16{4}, outsider: 9, rounds: []uint8{1}, honestBc: false, budget: 5},
 				{name: "N4b2", honest: []uint16{1, 2}, byz: []uint16{3, 4}, outsider: 9, rounds: []uint8{1}, budget: 5},
@@ -748,23 +765,9 @@ func gen(c *harness.C) []harness.Case {
 				{name: "N3t2", honest: []uint16{1, 2}, byz: []uint16{3}, rounds: []uint8{1}, budget: 4, t: 2},
 				{name: "N4t2", honest: []uint16{1, 2, 3}, byz: []uint16{4}, rounds: []uint8{1}, budget: 4, t: 2},
 			}
-		} else {
-			bs = []byzcfg{
-				{name: "N3", honest: []uint16{1, 2}, byz: []uint16{3}, outsider: 9, rounds: []uint8{1}, honestBc: true, budget: 4},
-				{name: "N4", honest: []uint16{1, 2, 3}, byz: []uint16{4}, outsider: 9, rounds: []uint8{1}, budget: 4},
-				{name: "N4b2", honest: []uint16{1, 2}, byz: []uint16{3, 4}, rounds: []uint8{1}, budget: 4},
-				{name: "N3-perm-sign", sign: true, honest: []uint16{1, 2}, byz: []uint16{3}, outsider: 9, rounds: []uint8{1}, honestBc: true, budget: 3, perm: true},
-				{name: "N3-perm", honest: []uint16{1, 2}, byz: []uint16{3}, rounds: []uint8{1}, honestBc: true, budget: 3, perm: true},
-				{name: "N3-lenient-p2p", honest: []uint16{1, 2}, byz: []uint16{3}, rounds: []uint8{1}, budget: 2, lenient: "p2p"},
-				{name: "N3-lenient-bcast", honest: []uint16{1, 2}, byz: []uint16{3}, rounds: []uint8{1}, budget: 3, lenient: "bcast"},
-				{name: "N3-prefix-collision", honest: []uint16{1, 2}, byz: []uint16{3}, rounds: []uint8{1}, budget: 4, collide: "prefix8"},
-				{name: "N3-suffix-collision", honest: []uint16{1, 2}, byz: []uint16{3}, rounds: []uint8{1}, budget: 4, collide: "suffix8"},
-				{name: "N4b2-alias-scripted", honest: []uint16{2, 3}, byz: []uint16{1, 257}, rounds: []uint8{1}, budget: 1, script: "alias"},
-				{name: "N3-round1-honest-scripted", honest: []uint16{1, 2}, byz: []uint16{3}, rounds: []uint8{1, 2}, budget: 4, script: "round1-honest"},
-				{name: "N3-cross-round-scripted", honest: []uint16{1, 2}, byz: []uint16{3}, rounds: []uint8{1, 2}, budget: 1, script: "cross-round"},
-				{name: "N4-cross-round-scripted", honest: []uint16{1, 2, 3}, byz: []uint16{4}, rounds: []uint8{1, 2}, budget: 0, script: "cross-round"},
-				{name: "N3t2", honest: []uint16{1, 2}, byz: []uint16{3}, rounds: []uint8{1}, budget: 3, t: 2},
-				{name: "N4t2", honest: []uint16{1, 2, 3}, byz: []uint16{4}, rounds: []uint8{1}, budget: 3, t: 2},
+			for _, d := range deeper {
+				d.name += "-deep"
+				bs = append(bs, d)
 			}
 		}
 		// the same searches on signing sessions (their participant filter and forward closure are
